@@ -204,6 +204,20 @@ def work(tasks, idx):
                 if code["k"] == "accept" or code.get("lib") != "InvalidJSONStructure":
                     res.violations.append({"why": f"{why} member {'.'.join(path)} := {val!r}: not refused with InvalidJSONStructure but {corr.kind(code)}",
                                            "json": json.dumps(w)[:600], "match": {"op": "parse_options_json", "kind": kind, "member": ".".join(path)}})
+            if i % 8 == 0:
+                # JSON text that `json.loads` refuses for another reason than its grammar: an integer literal beyond the
+                # interpreter's digit limit (as a member value, and as the whole text). Still "text that is not valid options"
+                huge = "7" * 4301
+                for label, bad in (("huge-literal-member", text.replace('"rp"', '"x-count": ' + huge + ', "rp"', 1) if '"rp"' in text
+                                    else text.replace("{", '{"x-count": ' + huge + ", ", 1)),
+                                   ("huge-literal-alone", huge), ("huge-literal-in-list", "[" + huge + "]")):
+                    code = corr.code_outcome(lambda: parse(bad), canon)
+                    res.evaluations += 1
+                    res.count("undecodable-text:" + corr.kind(code))
+                    if code["k"] == "accept" or code.get("lib") != "InvalidJSONStructure":
+                        res.violations.append({"why": f"options text that json.loads refuses ({label}) was not refused with InvalidJSONStructure "
+                                                      f"but {code.get('nonlib') or code.get('lib') or 'accepted'}", "json": bad[:80] + "...",
+                                               "match": {"op": "parse_options_json", "kind": kind, "member": label}})
             if len(res.samples) < 3:
                 res.samples.append({"kind": kind, "json": text[:400]})
     if drv:
